@@ -963,6 +963,15 @@ fn check_window(cx: &Ctx17, w: &Window, notes: &mut Notes) -> Result<(), String>
             notes.caret_skipped.push("too many ways to align a repetitive line");
             continue;
         }
+        if !ok && !w.secondary && sw(&lm.full) >= 100 && shown.contains("...") {
+            // (an over-wide line that the renderer may have trimmed itself and that contains
+            // `...` of its own: the alignment found need not be the real one - libFuzzer artifact)
+            notes.trimmed_by_renderer = true;
+            if *n == l {
+                err_line = Some((*n, shown, *tcol, lm, vec![]));
+            }
+            continue;
+        }
         if !ok {
             let a = &al[0];
             return Err(format!(
@@ -1016,18 +1025,20 @@ fn check_window(cx: &Ctx17, w: &Window, notes: &mut Notes) -> Result<(), String>
     // the renderer trimmed the line itself ("..."): only the character above the caret is compared
     let weak = |notes: &mut Notes| -> Result<(), String> {
         // the renderer trimmed the line itself ("..."): only compare the character above the caret
+        // (every character that starts at display column d: zero-width ones - combining marks -
+        // share the column of the character that follows them)
         let mut col = 0;
-        let mut above = None;
+        let mut above_all: Vec<char> = vec![];
         for ch in shown.chars() {
             if col == d {
-                above = Some(ch);
-                break;
+                above_all.push(ch);
             }
             col += cw(ch);
             if col > d {
                 break;
             }
         }
+        let above = above_all.first().copied();
         let left_trim = shown.starts_with("...");
         let right_trim = !left_trim || shown.chars().rev().take(12).collect::<String>().contains("...");
         let width = sw(shown);
@@ -1039,7 +1050,7 @@ fn check_window(cx: &Ctx17, w: &Window, notes: &mut Notes) -> Result<(), String>
             let piece = &lm.full[lm.starts[c - 1]..lm.starts[c]];
             match (above, piece.chars().next()) {
                 (Some(a), Some(e)) => {
-                    if a != e {
+                    if !above_all.contains(&e) {
                         return Err(format!("the character above the caret is {a:?}, input ({l},{c}) is {e:?} (renderer-trimmed line)"));
                     }
                     notes.caret_checked += 1;
@@ -1091,7 +1102,7 @@ fn check_window(cx: &Ctx17, w: &Window, notes: &mut Notes) -> Result<(), String>
         notes.caret_skipped.push("too many ways to align a repetitive line");
         return Ok(());
     }
-    if !ok && !w.secondary && renderer_trimmed(shown) && sw(&lm.full) >= 100 {
+    if !ok && !w.secondary && (renderer_trimmed(shown) || shown.contains("...")) && sw(&lm.full) >= 100 {
         // the shown text also occurs elsewhere in a line that is wide enough for the renderer's
         // own trimming: its `...` marker cannot be told from dots of the input (libFuzzer
         // artifact of a thorough sweep), so the line is judged like a trimmed one
